@@ -68,7 +68,18 @@ pub fn custom(case: &Case, v: &Value, _via: Via) -> Verdict {
             return Verdict::Fail(format!("crash under configuration {k}: {}", o.brief()));
         }
         match &first {
-            None => first = Some((k, o)),
+            None => {
+                // Generated programs: what the executed prints wrote, in
+                // order, is known from the reference run - also when the run
+                // ends in a reported error.
+                if let Some(want) = v.get("stdout").and_then(crate::pred::bytes_from) {
+                    let ok = v["ok"].as_bool().unwrap_or(true);
+                    if o.out != want || o.ok() != ok {
+                        return Verdict::Fail(format!("stdout is not the renderings of the executed prints: {} (expected {} bytes, {})", o.brief(), want.len(), if ok { "success" } else { "a reported error" }));
+                    }
+                }
+                first = Some((k, o));
+            },
             Some((k0, o0)) => {
                 if o.out != o0.out || o.status != o0.status || o.err != o0.err {
                     return Verdict::Fail(format!("configuration {k} differs from configuration {k0}: {} vs {}", o.brief(), o0.brief()));
@@ -289,10 +300,40 @@ fn print_checks(ctx: &Ctx) {
     });
 }
 
+// Every print that was executed is on stdout, in order, however control left
+// the constructs before it and however the run ends: loop kind x way of
+// leaving the loop x what follows (success, or one of several reported
+// errors at top level, in a function, in a later loop).
+fn executed_print_cases(ctx: &Ctx) -> Vec<(Case, bool)> {
+    let loops = [
+        ("for [_, v] in [1, 2, 3] {", "v"), ("for [_, v] in \"abc\" {", "v"), ("for [k, v] in {\"p\": 1, \"q\": 2} {", "k"),
+        ("i := 0\n    while i < 3 {\n        i += 1", "i"),
+    ];
+    let leaves = ["return 7", "break", "continue", "print(\"turn\")", "if true {\n            {\n                return [8]\n            }\n        }"];
+    let endings = [
+        "print(\"end\")\n", "print(nope)\n", "print(1 + \"a\")\n", "print(1 / 0)\n", "fn bad() {\n    print(\"in bad\")\n    return [1][3]\n}\nprint(bad())\n",
+        "for [_, w] in [1, 2] {\n    print(w)\n    print({\"k\": w}.missing)\n}\n", "x := 9223372036854775807\nprint(x)\nx += 1\n",
+    ];
+    let mut srcs = vec![];
+    for (head, var) in loops {
+        for leave in leaves {
+            for ending in endings {
+                for twice in [false, true] {
+                    let call = if twice { "print(search())\nprint(search())\n" } else { "print(search())\n" };
+                    let src = format!("fn search() {{\n    {head}\n        print({var})\n        {leave}\n    }}\n    print(\"after the loop\")\n    return 0\n}}\n{call}print(\"after the search\")\nprint([1, [2, {{\"k\": \"v\"}}]])\n{ending}");
+                    srcs.push((src, format!("`{head}` left by `{leave}`, then `{}`", ending.lines().next().unwrap_or(""))));
+                }
+            }
+        }
+    }
+    source_cases(ctx, "C19", "executed_prints", "every executed print reaches stdout, whatever came before and however the run ends", srcs)
+}
+
 pub fn run(ctx: &Ctx) {
-    ctx.set_rule("(a) generated programs (tape decoder, plus programs over objects with 8..16 keys built in shuffled insertion order with several simultaneous differences / type mismatches / missing keys, collect patterns and multi-fault destructuring) each run 5 times: twice in the base configuration (fresh hash seeds) and under 3 of 6 other configurations (cwd = script dir / parent / root / sub-directory, path relative / ./ / absolute / via .., environment empty / 150 variables / LANG, LC_ALL in {C, en_US, tr_TR} / RUST_BACKTRACE, stdin /dev/null / closed / pipe, stdout file / pipe, neighbouring files): stdout, status and stderr (echoed path normalised) must be byte-identical; (b) print(v) and print(print(v)) for every function-free value of the C10 pool (construction histories: literal, incremental insertion orders, spread / slice / concatenation / collected copies, aliases, shared children) and for values with one container at two depths, against an independent renderer; objects of up to 130 keys; programs failing with several equally eligible culprits; containers rendering to 0.3..8 KiB shared at several depths of one printed value. Non-trivial = (a) every case (5 runs), (b) depth >= 2 or a non-literal history; distinct = distinct programs");
+    ctx.set_rule("(a) generated programs (tape decoder, plus programs over objects with 8..16 keys built in shuffled insertion order with several simultaneous differences / type mismatches / missing keys, collect patterns and multi-fault destructuring) each run 5 times: twice in the base configuration (fresh hash seeds) and under 3 of 6 other configurations (cwd = script dir / parent / root / sub-directory, path relative / ./ / absolute / via .., environment empty / 150 variables / LANG, LC_ALL in {C, en_US, tr_TR} / RUST_BACKTRACE, stdin /dev/null / closed / pipe, stdout file / pipe, neighbouring files): stdout, status and stderr (echoed path normalised) must be byte-identical, and for the tape-decoded programs stdout must be exactly what the executed prints render to according to the reference run, whether the run ends normally or in a reported error; (b) print(v) and print(print(v)) for every function-free value of the C10 pool (construction histories: literal, incremental insertion orders, spread / slice / concatenation / collected copies, aliases, shared children) and for values with one container at two depths, against an independent renderer; objects of up to 130 keys; programs failing with several equally eligible culprits; containers rendering to 0.3..8 KiB shared at several depths of one printed value. (c) 4 loop kinds x 5 ways of leaving the loop x 7 endings (success and six reported errors at top level, in a function, in a later loop) x one or two calls: every executed print is on stdout, in order, against the reference run. Non-trivial = (a) every case (5 runs), (b) depth >= 2 or a non-literal history; distinct = distinct programs");
     ctx.replay_corpus(Some(&custom));
     print_checks(ctx);
+    ctx.judge_all(executed_print_cases(ctx), Via::Cli, None);
     let n = ctx.n(5_000, 60_000);
     let cfg = gen::GenCfg::balanced();
     let big = gen::GenCfg::big();
@@ -311,7 +352,14 @@ pub fn run(ctx: &Ctx) {
                 return None;
             }
             label_outcome(ctx, &rr);
-            print::print_prog(&prog, &print::Style::wild(8), Some(t)).src
+            let src = print::print_prog(&prog, &print::Style::wild(8), Some(t)).src;
+            let mut case = det_case(src, t, "five runs under varied configurations; stdout = the renderings of the executed prints (reference run)");
+            if let Pred::Custom(v) = &mut case.pred {
+                v["stdout"] = crate::pred::bytes_json(&rr.out);
+                v["ok"] = json!(rr.is_ok());
+                ctx.label("stdout compared with the reference run");
+            }
+            return Some((case, true));
         };
         Some((det_case(src, t, "five runs under varied configurations"), true))
     });
